@@ -1,8 +1,10 @@
 /-
 C08 — LP writer/reader round trip: the layers the round trip rests on.
-(placeholder obligations are replaced as the layer proofs land; see DESIGN.md C08)
+L1 numbers: `Qsx.Props.C10`; L2 bounds section: `lp_bounds_roundtrip`; L3 ranged rows: `range_split`.
+The section grammar and line layout around these layers are not modelled (round trips + C11).
 -/
 import Qsx.Proofs.NumScan
+import Qsx.Proofs.LpBoundsRT
 import Qsx.Model.LP
 
 namespace Qsx.Props.C08
@@ -15,5 +17,19 @@ theorem range_split (rhs range v : Rat) (ent : List (Nat × Rat)) :
       (LP.rowHolds { sense := 'G', rhs := rhs, range := 0, ent := ent } v ∧
        LP.rowHolds { sense := 'L', rhs := rhs + range, range := 0, ent := ent } v) := by
   simp [LP.rowHolds]
+
+/-- L2. The Bounds section of the LP format: for every pair of bounds `lo ≤ up` (infinite bounds as
+their encodings), integer column or not, the reader applied to what the writer prints — or omits —
+for the column returns the same bounds.  The writer's output is compared with `LpBounds.writeCol`
+on every generated file. -/
+theorem lp_bounds_roundtrip (lo up pinf ninf : Rat) (isInt : Bool) (hle : lo ≤ up) (hn : ninf < 0) (hp : 1 < pinf) :
+    LpBounds.readCol pinf ninf isInt (LpBounds.writeCol lo up pinf ninf isInt) = (lo, up) :=
+  LpBounds.read_write lo up pinf ninf isInt hle hn hp
+
+-- non-vacuity: (-inf, 3] prints both bounds; (-inf, -2] prints only the upper one and reads back with lower -inf
+#guard LpBounds.writeCol (-1000) 3 1000 (-1000) false == some (.range (some (-1000)) (some 3))
+#guard LpBounds.writeCol (-1000) (-2) 1000 (-1000) false == some (.range none (some (-2)))
+#guard LpBounds.readCol 1000 (-1000) false (some (.range none (some (-2)))) == (-1000, -2)
+#guard LpBounds.writeCol 0 1 1000 (-1000) true == none && LpBounds.readCol 1000 (-1000) true none == (0, 1)
 
 end Qsx.Props.C08
